@@ -303,10 +303,11 @@ func (iter *Iterator) Close() error {
 		err = rerr
 	}
 	iter.rows = nil
-	if iter.err != nil {
-		return iter.err
+	// Remember the result so that later calls to Close return it as well.
+	if iter.err == nil {
+		iter.err = err
 	}
-	return err
+	return iter.err
 }
 
 // Outcome holds metadata about executed queries, and can be provided as the
